@@ -18,7 +18,7 @@ sys.path.insert(0, os.path.join(HERE, "..", "bytesym"))
 import vcommon as V
 from vcommon import log
 import z3
-import core, ref, driver as D, gen01, gen15, gen07
+import core, ref, driver as D, gen01, gen15, gen07, gen12
 
 LIMITS = {"timeout_ms": 4000, "max_steps": 6000, "max_paths": 160, "max_depth": 10, "budget_s": 90}
 G = {}
@@ -35,7 +35,7 @@ def build_cli(scratch):
 
 
 def family(prop):
-    return {"C01": gen01, "C15": gen15, "C07": gen07}[prop]
+    return {"C01": gen01, "C15": gen15, "C07": gen07, "C12": gen12}[prop]
 
 
 def path_models(paths, nin, limit):
@@ -160,6 +160,8 @@ def main():
 def select(prop, tier):
     if prop == "C07":
         return gen07.select(tier, V.seed())
+    if prop == "C12":
+        return gen12.select(tier, V.seed())
     if prop == "C01":
         if tier == "quick":
             return gen01.select([(1, None), (2, 1100), (3, 200)], V.seed(), deep=80)
@@ -283,7 +285,7 @@ def report(a, prop, results, space, full_depth, t0):
             ev = None
         if ev is None or ev.get("tier") != a.tier:
             raise V.Inconclusive("--merge: no evidence of the first engine to add to")
-        ev["coverage"]["engine_D_closure_families"] = coverage
+        ev["coverage"]["engine_D_families (bounded translation validation of emitted code)"] = coverage
         ev["assumptions"] = ev.get("assumptions", []) + ["engine D part: " + x for x in assumptions]
         ev["wall_s"] = round(ev.get("wall_s", 0) + time.time() - t0, 2)
         ev["violations"] = ev.get("violations", 0) + len(seen)
